@@ -62,6 +62,20 @@ pub struct W4Cfg {
     /// C17: the harness moves its quotes by re-pricing them (modify instructions) instead of cancel + place
     #[serde(default)]
     pub quote_by_modify: bool,
+    /// C16: trading is halted at the start of step `.0` and resumed at the start of step `.1` (agents keep acting: the
+    /// book may cross while halted)
+    #[serde(default)]
+    pub halts: Vec<(u64, u64)>,
+    /// C17: steps the environment makes before the agents' first update (>= 1: the quotes must be resting)
+    #[serde(default)]
+    pub warmup: u8,
+    /// C17: every k-th step is followed by one more environment step without an agent update (0 = never)
+    #[serde(default)]
+    pub extra_step_every: u8,
+    /// C09: before the second in-process run an earlier simulation is abandoned on the same thread with instructions
+    /// still queued (as after a caught panic); it must not influence the next one
+    #[serde(default)]
+    pub abandoned_first: bool,
 }
 
 #[derive(Clone, Debug, Serialize, Deserialize, PartialEq)]
@@ -267,6 +281,13 @@ impl World {
     }
     pub fn modify(&mut self, a: usize, id: usize, p: Option<u32>, v: Option<u32>) {
         with_world!(self, |e| EnvLike::modify(e.as_mut(), a, id, p, v))
+    }
+    pub fn set_trading(&mut self, on: bool) {
+        if on {
+            with_world!(self, |e| EnvLike::enable_trading(e.as_mut()))
+        } else {
+            with_world!(self, |e| EnvLike::disable_trading(e.as_mut()))
+        }
     }
     pub fn step(&mut self, rng: &mut SeamRng) {
         with_world!(self, |e| EnvLike::step(e.as_mut(), rng))
@@ -508,6 +529,25 @@ pub fn execute_c09(scn: &W4Scn, run_dir: &str) -> RunOutcome {
                 return Ok(());
             }
         };
+        if scn.cfg.abandoned_first {
+            // an earlier simulation on this thread, abandoned between the agents' update and the step (instructions still
+            // queued), as after a caught panic: nothing of it may leak into the next run
+            let _ = guard(|| {
+                let mut w = World::new(&scn.cfg);
+                for (a, bid, price, vol) in &scn.initial {
+                    let _ = w.place(*a, *bid, *vol, 7777, Some(*price));
+                }
+                let mut rng = SeamRng::passthrough(seed ^ 0x5eed);
+                let mut groups: Vec<Group> = scn.agents.iter().map(|s| Group::new(s, &scn.cfg)).collect();
+                for g in groups.iter_mut() {
+                    g.update(&mut w, &mut rng);
+                }
+                let queued = w.queue().len();
+                drop(w);
+                queued
+            });
+            stats.fault("abandoned_simulation_before_rerun");
+        }
         let d2 = guard(|| sim_shipped(scn, seed, false)).map_err(|m| v(scn, "agent-abort", "sim_runner", "no abort".into(), m))?;
         stats.probe("in_process_rerun");
         if d1 != d2 {
